@@ -1,7 +1,8 @@
 (* Executable model of   TerminalExpr(LogicalExpr(e, D), D.logical_domain)   (sympde/topology/mapping.py
    LogicalExpr.eval + PullBack + Covariant, sympde/expr/evaluation.py TerminalExpr.eval for the symbolic
    Jacobian / inverse / transpose / determinant / trace), arm for arm, for a domain D = M(logical domain) of
-   dimension d with a mapping named m.  Input: the constructed sympde expression as a tree [lx]; output: a
+   dimension d with a mapping named m (on an interface of a multi-patch domain: the patch of side sd with ITS
+   mapping m, see Model/LogicalIfM.v).  Input: the constructed sympde expression as a tree [lx]; output: a
    tensor of terminal expressions over LOGICAL atoms (AFld true .. = the logical unknowns and their dx1..dx3
    derivatives, AMap m i al = logical derivatives of the mapping components, ACoord true i, constants).
    The kind -> formula table of PullBack.__new__ and the LogicalGrad/Curl/Div_kd tables come from Gen/PullBack.v
@@ -126,6 +127,8 @@ Fixpoint has_op (e : lx) : bool :=
 Section Model.
   Variable d : nat.          (* dimension of the domain *)
   Variable m : string.       (* name of the mapping *)
+  Variable sd : side.        (* the side of an interface that the functions are restricted to (SNone: no interface):
+                                the logical unknowns are the atoms AFld true f c sd al *)
 
   (* ---------------------------------------------------------------- the Jacobian and its inverse *)
   Definition unit (j : nat) : list nat := bump j [].
@@ -183,8 +186,8 @@ Section Model.
 
   (* the logical unknown that stands for a function named f *)
   Definition el_of (f : string) (vector : bool) : tensor :=
-    if vector then Vec (map (fun c => TAt (AFld true f (S c) SNone [])) (seq0 d))
-    else Sc (TAt (AFld true f 0 SNone [])).
+    if vector then Vec (map (fun c => TAt (AFld true f (S c) sd [])) (seq0 d))
+    else Sc (TAt (AFld true f 0 sd [])).
 
   (* PullBack(u, mapping).expr lowered by TerminalExpr *)
   Definition pullback (f : string) (k : kind) (vector : bool) : option tensor :=
@@ -336,7 +339,7 @@ Section Model.
     | LCurl a =>
         match a with
         | LVF f KHcurl =>                          (* PullBack of kind Hcurl: Piola *)
-            match lcurl (map (fun c => TAt (AFld true f (S c) SNone [])) (seq0 d)) with
+            match lcurl (map (fun c => TAt (AFld true f (S c) sd [])) (seq0 d)) with
             | Some c =>
                 if Nat.eqb d 2 then t_mul (Sc (TInv det_t)) c                      (* (1/J.det())*curl *)
                 else match t_mul (Sc (TInv det_t)) (Mat jac) with                  (* (J/J.det())*curl *)
@@ -350,7 +353,7 @@ Section Model.
     | LDiv a =>
         match a with
         | LVF f k =>
-            let el := map (fun c => TAt (AFld true f (S c) SNone [])) (seq0 d) in
+            let el := map (fun c => TAt (AFld true f (S c) sd [])) (seq0 d) in
             match k with
             | KHdiv => match ldiv el with Some dv => t_mul (Sc (TInv det_t)) dv | None => None end
             | _ => (* SymbolicTrace(Jacobian**(-1).T * grad(arg.test)) : uses the logical unknown itself *)
